@@ -161,6 +161,7 @@ typedef struct vfs_s {
 } vfs_t;
 
 extern vfs_t *vfs_cur;
+extern long vfs_default_rlimit;
 
 vfs_t *vfs_new(void);
 void vfs_free(vfs_t *v);
